@@ -330,7 +330,9 @@ def explore_cell(lemma, cell, interp, timeout_ms=10000, max_paths=4000, replay=T
     while work:
         prefix = work.pop()
         if res.paths >= max_paths:
-            res.errors.append("path limit %d exceeded" % max_paths)
+            # too many paths: the cell is undecided (never a verdict); the bounded probes below look for a witness
+            res.undecided.append({"clause": "path-limit", "reason": "more than %d paths" % max_paths})
+            res.clauses["path-limit"] = {"status": "undecided", "props": sorted(lemma.props), "n": 1, "ms": 0.0}
             break
         p = Path(prefix, timeout_ms)
         set_path(p)
@@ -397,6 +399,19 @@ class _Alarm(Exception):
 
 def _on_alarm(signum, frame):
     raise _Alarm()
+
+
+def probe_cell(lemma, cell):
+    """bounded probes only (used for cells whose symbolic exploration was killed by the watchdog)"""
+    res = CellResult(lemma.name, cell)
+    if hasattr(lemma, "probes"):
+        for holes in lemma.probes(cell):
+            r = native_replay(lemma, cell, holes, None)
+            if r["native"] == "confirmed":
+                res.failures.append({"clause": "cell-watchdog", "props": sorted(lemma.props), "holes": holes, "native": "confirmed",
+                                     "signature": "probe:%s" % r["signature"], "info": r["info"]})
+                break
+    return res
 
 
 def native_replay(lemma, cell, holes, clause, timeout_s=5.0, props=None):
